@@ -44,6 +44,7 @@ func opMain(p, o int64) sx.Tree     { return sx.Ints(4, p, o) }
 func opRefresh() sx.Tree            { return sx.Ints(6) }
 func opRevoke() sx.Tree             { return sx.Ints(8) }
 func opCrash() sx.Tree              { return sx.Ints(12) }
+func opRecCrash(p int64) sx.Tree    { return sx.Ints(14, p) }
 func opRequest(p, f, t int64) sx.Tree { return sx.Ints(9, p, f, t) }
 func opSetOwned(ps []int64) sx.Tree { return sx.T(sx.L(7), sx.Ints(ps...)) }
 func opKErr(code int64, wmerr bool, lows [][2]int64) sx.Tree {
@@ -141,6 +142,23 @@ func genScenario(r *sx.Rng, focus string) sx.Tree {
 	}
 	ops = append(ops, opRefresh())
 
+	gridStop := 12
+	if focus == "C09" {
+		gridStop = 30
+	}
+	if r.Chance(gridStop) {
+		// the owner stops while blocked on the emission of a record whose offset is on the progress-broadcast grid
+		w := wins[r.Intn(len(wins))]
+		k := (every-w.f%every)%every + every*r.Range(0, 1)
+		if k == 0 {
+			k = every
+		}
+		if w.f+k < w.t {
+			ops = append(ops, opPump(w.p, k), opRecCrash(w.p))
+			setOwned()
+			ops = append(ops, opRefresh())
+		}
+	}
 	disrupt := 10
 	if focus == "C09" {
 		disrupt = 22
@@ -192,7 +210,11 @@ func genScenario(r *sx.Rng, focus string) sx.Tree {
 				if r.Chance(40) {
 					ops = append(ops, opRevoke())
 				}
-				ops = append(ops, opCrash())
+				if r.Chance(35) {
+					ops = append(ops, opRecCrash(w.p)) // stops while handling the next record of w.p
+				} else {
+					ops = append(ops, opCrash())
+				}
 				if r.Chance(90) {
 					setOwned()
 					if r.Chance(90) {
@@ -305,10 +327,13 @@ func genChaos(r *sx.Rng, focus string) sx.Tree {
 			}
 			ops = append(ops, opSetOwned(ps))
 		case 11:
-			if r.Bool() {
+			switch r.Intn(3) {
+			case 0:
 				ops = append(ops, opRevoke())
-			} else {
+			case 1:
 				ops = append(ops, opCrash())
+			default:
+				ops = append(ops, opRecCrash(part()))
 			}
 		case 12, 13:
 			f := off()
